@@ -5,6 +5,6 @@ CONSTANT MaxLabels = 2
 CONSTANT MaxCount = 2
 CONSTANT MaxO2 = 1
 CONSTANT O2Twice = TRUE
-CONSTANT StackFlagsFull = FALSE
+CONSTANT StackFlagsFull = "few"
 INVARIANT PairSound
 CHECK_DEADLOCK FALSE
